@@ -6,11 +6,12 @@ from ..apigen import File, INT_SCALARS
 
 RULE = ("(1) classification: request/response shapes built around the AIP-4233 rule — one-factor variations of the "
         "conventional List shape over every paging field (absent / each integer kind / non-integer scalars / wrappers / "
-        "other messages / enum / repeated label / near-miss names) plus random products, with 0..3 repeated response "
+        "other messages / enum / repeated label / near-miss names) plus random products, field numbers permuted against declaration order, with 0..3 repeated response "
         "fields (messages of the same file, of another file, of another package, scalars, maps) in random positions; "
         "one case = one (request shape, response shape); non-trivial = the request has at least one of the paging field names. "
         "(2) pager behaviour: generated libraries (grpc / grpc+rest / rest) whose paged methods are called through the sync, "
-        "asyncio and REST clients against loopback servers answering from scripted page histories (1..5 pages up to the "
+        "asyncio and REST clients (iterating items or pages to the end, or leaving the loop early while holding page N>=2 / after j items, "
+        "with attributes read through the pager object at every yield and after the loop) against loopback servers answering from scripted page histories (1..5 pages up to the "
         "first empty token, page sizes 0..3, empty intermediate pages, unreachable pages after the empty token, initial "
         "page_token set or not, timeout/metadata/retry options); one case = one (library, method, client kind, history, mode); "
         "non-trivial = the history has at least two pages or at least one item. Distinct = distinct canonical JSON.")
@@ -71,8 +72,19 @@ def coq_shape(shape, owner_fqn):
     return coq.lst(f"(mkField {coq.s(f['name'])} {coq_type(f, owner_fqn)} {coq.b(f['repeated'])} {coq.b(bool(f['map']))})" for f in shape)
 
 
+def renumber(r, shape):
+    """Give the fields numbers that are NOT in declaration order (a random permutation, sometimes with gaps)."""
+    nums = list(range(1, len(shape) + 1))
+    r.shuffle(nums)
+    gap = r.choice([0, 0, 7])
+    for f, n in zip(shape, nums):
+        f["number"] = n + (gap if n > 1 else 0)
+    return shape
+
+
 def add_fields(msg, shape, file):
     for i, f in enumerate(shape, 1):
+        i = f.get("number", i)
         if f["map"]:
             k, v = f["map"]
             msg.map_field(f["name"], i, k, v[4:] if v.startswith("msg:") else v)
@@ -172,7 +184,7 @@ def gen_response(r, token=("string", False), n_rep=None, token_name="next_page_t
     r.shuffle(slots)
     if token is not None:
         slots.insert(r.randint(0, len(slots)), fld(token_name, token[0], token[1]))
-    return slots
+    return renumber(r, slots) if r.random() < 0.5 else slots
 
 
 def gen_request(r, token=("string", False), page_size=("int32", False), max_results=None, token_name="page_token",
@@ -189,7 +201,13 @@ def gen_request(r, token=("string", False), page_size=("int32", False), max_resu
     if max_results is not None:
         fields.append(fld(mr_name, max_results[0], max_results[1]))
     r.shuffle(fields)
-    return fields
+    return renumber(r, fields) if r.random() < 0.3 else fields
+
+
+def numbered(name, typ, number, repeated=False, map_=None):
+    f = fld(name, typ, repeated, map_)
+    f["number"] = number
+    return f
 
 
 def classification_cases(r, n_random):
@@ -215,6 +233,18 @@ def classification_cases(r, n_random):
     for mk in REPEATED_SLOTS:      # every kind of first repeated field, followed by a message list
         resp = [fld("total_size", "int32"), mk("first_rep"), fld("books", "msg:." + PKG + ".Book", True), fld("next_page_token", "string")]
         add(gen_request(r), resp, ["first-repeated-kind"])
+    # repeated fields NOT numbered in declaration order: the item field is the first one DECLARED
+    B = "msg:." + PKG + ".Book"
+    for resp in (
+        [numbered("books", B, 3, True), numbered("next_page_token", "string", 2), numbered("unreachable", "string", 1, True)],
+        [numbered("unreachable", "string", 3, True), numbered("next_page_token", "string", 2), numbered("books", B, 1, True)],
+        [numbered("total_size", "int32", 4), numbered("labels", "msg", 9, map_=("string", "string")), numbered("books", B, 2, True), numbered("next_page_token", "string", 1)],
+        [numbered("next_page_token", "string", 5), numbered("warnings", "string", 4, True), numbered("shelves", "msg:." + PKG + ".Shelf", 3, True), numbered("books", B, 2, True)],
+    ):
+        add(gen_request(r), resp, ["numbers-out-of-declaration-order"])
+    for k in (2, 3):
+        for _ in range(4):
+            add(gen_request(r), renumber(r, gen_response(r, n_rep=k)), ["numbers-out-of-declaration-order"])
     for nm in ("pageToken", "page_tokens", "PAGE_TOKEN", "page_token_", "token"):
         add(gen_request(r, token_name=nm), gen_response(r, n_rep=1), ["near-miss-name"])
     for nm in ("nextPageToken", "next_page_tokens", "next_token", "page_token"):
@@ -311,7 +341,7 @@ def short_shape(shape):
             t = f"map<{f['map'][0]},{short(f['map'][1])}>"
         elif ":" in t:
             t = short(t) if not t.startswith("msg:.acme") else "acme." + short(t)
-        return f"{'repeated ' if f['repeated'] and not f['map'] else ''}{t} {f['name']}"
+        return f"{'repeated ' if f['repeated'] and not f['map'] else ''}{t} {f['name']}" + (f" = {f['number']}" if "number" in f else "")
     return "{" + "; ".join(one(f) for f in shape) + "}"
 
 
@@ -345,14 +375,14 @@ def report(ctx, pending):
     ctx.notes["oracle_disagreements_by_signature"] = {str(k): sum(1 for p in pending if p[0] == k) for k in {p[0] for p in pending}}
 
 
-# the witnesses of the three _refuted lemmas of Proofs/Paging.v, replayed on the implementation in every run
+# the three shapes on which code and sentence used to differ (fixed by /repo 40fb15d; Example former_gaps_closed), replayed in every run
 WITNESSES = [
     {"tags": ["witness-wrapper_page_size"], "req": [fld("parent", "string"), fld("page_size", "msg:" + WRAP + "Int32Value"), fld("page_token", "string")],
-     "resp": [fld("books", "msg:." + PKG + ".Book", True), fld("next_page_token", "string")], "expect_impl": True, "expect_spec": False},
+     "resp": [fld("books", "msg:." + PKG + ".Book", True), fld("next_page_token", "string")], "expect_impl": False, "expect_spec": False},
     {"tags": ["witness-shadowed_page_size"], "req": [fld("max_results", "string"), fld("page_size", "int32"), fld("page_token", "string")],
-     "resp": [fld("books", "msg:." + PKG + ".Book", True), fld("next_page_token", "string")], "expect_impl": False, "expect_spec": True},
+     "resp": [fld("books", "msg:." + PKG + ".Book", True), fld("next_page_token", "string")], "expect_impl": True, "expect_spec": True},
     {"tags": ["witness-repeated_paging_field"], "req": [fld("page_size", "int32"), fld("page_token", "string", True)],
-     "resp": [fld("books", "msg:." + PKG + ".Book", True), fld("next_page_token", "string")], "expect_impl": True, "expect_spec": False},
+     "resp": [fld("books", "msg:." + PKG + ".Book", True), fld("next_page_token", "string")], "expect_impl": False, "expect_spec": False},
 ]
 
 
@@ -434,6 +464,10 @@ def library_api(r, transports):
         r.shuffle(resp)
         if paged_intent or r.random() < 0.5:
             resp.insert(r.randint(0, len(resp)), fld("next_page_token", "string"))
+        if r.random() < 0.6:
+            renumber(r, resp)
+        if r.random() < 0.3:
+            renumber(r, req)
         rq, rs = main.message(name + "Request"), main.message(name + "Response")
         add_fields(rq, req, main)
         add_fields(rs, resp, main)
@@ -785,12 +819,20 @@ def build_drive_calls(r, D, info, m, kinds):
     hist = {"pages": [[items_of_dynamic(x, item), x.next_page_token, attrs_of_dynamic(x, attr_names[1:])] for x in msgs],
             "visited": len(pages)}
     out = []
+    nvis = len(pages)
+    total_items = sum(len(p[0]) for p in hist["pages"][:nvis])
+    # leave the loop while holding page N >= 2 whenever the history has one; leave the item loop after j >= 1 items
+    brk_page = r.randint(1, nvis - 1) if nvis >= 2 else 0
+    brk_item = r.randint(1, total_items) if total_items and not item["map"] else None
+    modes = [("items", None), ("pages", None), ("pages-break", brk_page)] + ([("items-break", brk_item)] if brk_item else [])
     for kind in kinds:
-        for mode in ("items", "pages"):
+        for mode, brk in modes:
             spec = {"service_module": info["module"], "client": info["service"] + ("AsyncClient" if kind == "grpc_asyncio" else "Client"),
                     "transport": kind, "method": m["snake"],
                     "request": {"cls": f"{info['pypkg']}.types:{short(m['req_fqn'])}", "b64": dyn.Dyn.b64(rq)},
                     "call_kwargs": ck, "mode": mode, "item_field": item["name"], "is_map": bool(item["map"]), "attr_names": snap_names}
+            if brk is not None:
+                spec["break_after"] = brk
             if kind == "rest":
                 spec["http_script"] = [{"status": 200, "body": json_format.MessageToJson(x)} for x in msgs]
             else:
@@ -806,11 +848,24 @@ def eval_drive(ctx, D, info, lib_i, req_b64, call, res, checks, pending):
     names = call["attr_names"]
     case = {"kind": "drive", "request_b64": req_b64, "info": {k: info[k] for k in ("package", "pypkg", "service", "module", "transports")},
             "rpc": m["name"], "call": {k: v for k, v in call.items() if k != "observed"}}
-    label = f"lib#{lib_i} {m['name']} {kind} {mode} pages={[(len(p[0]), p[1]) for p in hist['pages']]} visited={hist['visited']}"
-    visited = hist["pages"][: hist["visited"]]
+    brk = call["spec"].get("break_after")
+    label = f"lib#{lib_i} {m['name']} {kind} {mode}{'' if brk is None else '@' + str(brk)} pages={[(len(p[0]), p[1]) for p in hist['pages']]} visited={hist['visited']}"
+    full = hist["pages"][: hist["visited"]]
+    # the pages the consumer has pulled when it stops (all of them unless it breaks out early)
+    if mode == "pages-break":
+        visited = full[: brk + 1]
+    elif mode == "items-break":
+        acc, kpage = 0, 0
+        for kpage, p in enumerate(full):
+            acc += len(p[0])
+            if acc >= brk:
+                break
+        visited = full[: kpage + 1]
+    else:
+        visited = full
     ctx.case({"lib": lib_i, "rpc": m["name"], "kind": kind, "mode": mode, "hist": hist, "sent_token": call["sent_token"]},
              nontrivial=len(visited) > 1 or any(p[0] for p in visited),
-             feature=[f"drive-{kind}", f"pages={len(visited)}", f"item-{m['item_kind']}", f"size-{m['size'][0]}:{short(m['size'][1])}",
+             feature=[f"drive-{kind}", f"mode-{mode}", f"pages={len(full)}", "break-holding-page>=2" if mode == "pages-break" and brk >= 1 else "no-late-break", f"item-{m['item_kind']}", f"size-{m['size'][0]}:{short(m['size'][1])}",
                       "empty-intermediate-page" if any(not p[0] for p in visited[:-1]) else "no-empty-intermediate",
                       "unreachable-extra-pages" if len(hist["pages"]) > hist["visited"] else "no-extra-pages",
                       "initial-token" if call["sent_token"] else "no-initial-token"])
@@ -856,7 +911,9 @@ def eval_drive(ctx, D, info, lib_i, req_b64, call, res, checks, pending):
         if k > 0 and (c[2] != calls[0][2]):
             problems.append(f"call {k} changed call options: {c[2]} vs {calls[0][2]}")
     exp_items = [x for p in visited for x in p[0]]
-    if mode == "items":
+    if mode == "items-break":
+        exp_items = exp_items[:brk]
+    if mode in ("items", "items-break"):
         got = [decode_enc(D, e, item, elem) for e in out["items"]]
         if item["map"]:
             # map iteration order within one page is not server order: compare page by page as sorted lists
@@ -887,11 +944,12 @@ def eval_drive(ctx, D, info, lib_i, req_b64, call, res, checks, pending):
     fin_list = [decode_enc(D, e, item, elem) for e in fin_items.get("items", [])] if fin_items.get("kind") == "list" else ["<not a list>"]
     fin_list = sorted(fin_list) if item["map"] else fin_list
     final_page = (fin_list, (fin.get("next_page_token") or {}).get("value"), attrs_of_snapshot(fin, names[1:]))
-    if visited and (final_page[1] != "" or final_page[2] != visited[-1][2] or final_page[0] != visited[-1][0]):
-        problems.append(f"after iteration the pager exposes {final_page}, the most recent page is {visited[-1]}")
+    if visited and (final_page[1] != visited[-1][1] or final_page[2] != visited[-1][2] or final_page[0] != visited[-1][0]):
+        problems.append(f"after {'leaving the loop early' if brk is not None else 'iteration'} the pager exposes {final_page}, the most recent page is {visited[-1]}")
     for p in problems[:3]:
         pending.append((None, f"{label}: {p}", case))
-    call["observed"] = {"calls": calls, "items": got if mode == "items" else None}
+    call["observed"] = {"calls": calls, "items": got if mode in ("items", "items-break") else None,
+                        "pages_through_pager": obs_pages, "attributes_after": final_page}
     # ---- model = implementation, inside Coq ----
     is_async = coq.b(kind == "grpc_asyncio")
     firstc = coq_call((first_expected[0], first_expected[1], first_expected[2] if first_expected[2] is not None else ""))
@@ -900,9 +958,13 @@ def eval_drive(ctx, D, info, lib_i, req_b64, call, res, checks, pending):
     final_t = f"(Some {coq_page((final_page[0], final_page[1] if isinstance(final_page[1], str) else '<none>', final_page[2]))})"
     if mode == "items":
         checks.append((label, f"items_run_matches {is_async} {firstc} {script[0]} {coq.lst(script[1:])} {coq.slist(got)} {obs_calls} {final_t}"))
+    elif mode == "items-break":
+        checks.append((label, f"items_break_matches {is_async} {firstc} {script[0]} {coq.lst(script[1:])} {coq.nat(brk)} {coq.slist(got)} {obs_calls} {final_t}"))
     else:
         pg = coq.lst(coq_page((p[0], p[1] if isinstance(p[1], str) else "<none>", p[2])) for p in obs_pages)
-        checks.append((label, f"pages_run_matches {is_async} {firstc} {script[0]} {coq.lst(script[1:])} {pg} {obs_calls} {final_t}"))
+        fn = "pages_run_matches" if mode == "pages" else f"pages_break_matches"
+        arg = "" if mode == "pages" else f" {coq.nat(brk)}"
+        checks.append((label, f"{fn} {is_async} {firstc} {script[0]} {coq.lst(script[1:])}{arg} {pg} {obs_calls} {final_t}"))
 
 
 def retry_scenario(r, D, info, m, kinds):
@@ -979,7 +1041,7 @@ def run_libraries(ctx, n, seed_tag="C07-lib", histories=2):
                         pending.append((None, f"lib#{i} {m['name']} {c['kind']}: with a retried follow-up request items={got} calls={len(res['grpc_calls'])}", case))
                 continue
             eval_drive(ctx, D, info, i, b64, c, res, checks, pending)
-            by_hist.setdefault((c["m"]["name"], json.dumps(c["hist"], sort_keys=True), c["mode"]), []).append(c)
+            by_hist.setdefault((c["m"]["name"], json.dumps(c["hist"], sort_keys=True), c["mode"], c["spec"].get("break_after")), []).append(c)
         # sync and asyncio pagers agree (same history, same mode)
         for key, group in by_hist.items():
             obs = {c["kind"]: c.get("observed") for c in group if c["kind"] != "rest" and c.get("observed")}
@@ -1046,7 +1108,7 @@ def run(ctx):
     for w in cases:
         if "expect_impl" in w and "impl" in w:
             ok = (w["impl"]["paged"] is not None) == w["expect_impl"] and spec_paged(w["req"], w["resp"]) == w["expect_spec"]
-            ctx.oblige(f"witness {w['tags'][0]} replayed on the implementation (code says {w['expect_impl']}, sentence says {w['expect_spec']})", ok,
+            ctx.oblige(f"former gap {w['tags'][0]} stays closed (implementation and sentence both say paginated={w['expect_spec']})", ok,
                        json.dumps(w["impl"]), "T2")
     report(ctx, pending)
 
